@@ -427,6 +427,12 @@ func ParseTemplateSource(src []byte, format ast.Format, imported, noParseShow bo
 
 		}
 
+		// A statement or a show can end on a line after the one where it
+		// starts: the next token is on the line where it ends.
+		if line < tok.pos.Line {
+			line = tok.pos.Line
+		}
+
 	}
 
 	// If the ancestors are {Tree, Func, Block} check if Func is distraction free.
